@@ -1,5 +1,6 @@
 (* C10 -- Close unblocks everything, fails later calls and releases all resources.  Statements only (more in progress). *)
 From MV Require Import Model.Core Model.CoreOracle Proofs.CoreProofs.
+From MV Require Import Model.Handshaker Proofs.HandshakerProofs.
 Open Scope N_scope.
 
 Definition c10_witness : list kstim :=
@@ -53,3 +54,20 @@ Print Assumptions C10_released_at_every_point_after_close.
 Theorem C10_released_premise_witness : fresh_hist kinit c10_witness /\ has_close c10_witness = true.
 Proof. split; [vm_compute; repeat split|reflexivity]. Qed.
 Print Assumptions C10_released_premise_witness.
+
+(* ---- the handshaker of the stream transports (Model/Handshaker.v = transport/conn.go connHandshaker; tied by
+   harness/cmd/hsm): for EVERY sequence of Start / handshake completions / Wait / Close, once the handshaker is closed
+   every connection that is still open is one Wait had handed to the caller before -- nothing started and not
+   collected survives the Close, at any later point, whatever finishes late or is started afterwards ---- *)
+Theorem C10_handshaker_close_releases : forall ops s, s = fst (hrun h0 ops) -> h_closed s = true ->
+  forall c, In c (h_open s) -> In c (h_given s).
+Proof. exact closed_means_released. Qed.
+Print Assumptions C10_handshaker_close_releases.
+
+Theorem C10_handshaker_start_after_close : forall s c, h_closed s = true -> h_open (fst (hstep s (HStart c))) = h_open s.
+Proof. exact start_after_close. Qed.
+Print Assumptions C10_handshaker_start_after_close.
+
+Theorem C10_handshaker_invariant_all_histories : forall ops, HandshakerProofs.Inv (fst (hrun h0 ops)).
+Proof. intro ops. apply inv_run. exact inv_h0. Qed.
+Print Assumptions C10_handshaker_invariant_all_histories.
